@@ -213,6 +213,8 @@ def t_optimize(ex):
     if out.raised:
         ex.oblige(f"{P}.raises.valueerror_only_for_bare_minus", And(out.raised_cls(ValueError), anybad), kind="exceptional-postcondition")
         return
+    # an incomplete negation is rejected wherever it stands (the expansion of the same stream rejects it)
+    ex.oblige(f"{P}.ensures.a_bare_minus_anywhere_is_rejected", Not(anybad) if toks else True)
     ex.cover(f"optimize.len{n}")
     items = models.iter_concrete(it, out.value)
     S = z3.EmptySet(STR)
@@ -223,7 +225,6 @@ def t_optimize(ex):
         xt = x.t if isinstance(x, SStr) else z3.StringVal(x)
         pos = z3.If(_neg(xt), pos, z3.SetAdd(pos, xt))
     ex.oblige(f"{P}.ensures.positives_equal_expansion", SBool(pos == S))
-    # a bare '-' anywhere right of the terminating -* is never reached; left of it it is skipped by design
 
 
 def _ref_lic(tokens, licenses, groups):
@@ -348,7 +349,7 @@ def replay_optimize(model):
         got = {x for x in optimize_incrementals(toks) if x[0] != "-"}
     except ValueError:
         got = "ValueError"
-    return (got != want and want != "ValueError"), f"positives of optimize_incrementals({toks}) = {got}; expansion = {want}"
+    return got != want, f"positives of optimize_incrementals({toks}) = {got}; expansion of the same stream = {want}"
 
 
 REPLAY = {"C12.incremental_expansion.": replay_expansion, "C12.optimize_incrementals": replay_optimize}
